@@ -70,7 +70,18 @@ func (f *Function) Equal(i interface{}) bool {
 // Equal tests two Values for equality. Any other type returns false.
 func (f *Function) EqualFunction(g *Function) bool {
 	// Function equality is undecidable in the general case. Should we panic?
-	return f.body == g.body
+	return sameExpr(f.body, g.body)
+}
+
+// sameExpr reports whether a and b are the identical expression. Expressions held by value whose
+// type is not comparable (e.g. CompareExpr, which has slices) are never the same.
+func sameExpr(a, b Expr) (same bool) {
+	defer func() {
+		if recover() != nil {
+			same = false
+		}
+	}()
+	return a == b
 }
 
 // String returns a string representation of the expression.
